@@ -19,6 +19,24 @@ pub struct SubModel {
     pub ws_routes: Vec<String>,
 }
 
+/// CORS calls made on a sub-app after its routes are registered (a function of the model, so both runtimes and a
+/// replay make the same calls): `Some(pattern)` = `with_cors_config(pattern, wildcard)`, `None` = `with_cors(wildcard)`.
+/// Configuring CORS must not change which handler answers (seeded C04-K).
+pub fn cors_plan(m: &SubModel) -> Vec<Option<String>> {
+    if m.routes.is_empty() {
+        return vec![];
+    }
+    let h = crate::util::fnv(m.routes.join("|").as_bytes());
+    let n = m.routes.len() as u64;
+    let a = m.routes[((h / 4) % n) as usize].clone();
+    match h % 4 {
+        0 => vec![],
+        1 => vec![Some(a)],
+        2 => vec![Some(m.routes[0].clone()), Some(a)],
+        _ => vec![None, Some(a)],
+    }
+}
+
 #[derive(Clone, Debug)]
 pub struct AppModel {
     pub hosts: Vec<SubModel>,
